@@ -163,6 +163,82 @@ def time_scripts(rep, cfgs, workers, timeout, max_scripts, rnd):
     return cases
 
 
+def concretize_mem(tc):
+    """tc: the CASE record printed by H1Mem (scn, steps in blocks of 8 KiB, pred)."""
+    s = tc["scn"]
+    BLK = 8192
+    reqs = [{"m": "POST", "framing": {"k": "cl", "n": s["body"] * BLK}}]
+    read = {"all": "all", "step": "step", "hold": "none"}[s["reader"]]
+    body = {"k": "empty"} if s["chunks"] == 0 else {"k": "body-stream", "chunks": [2 * BLK] * s["chunks"]}
+    progs = [{"pend": 1 if s["reader"] == "hold" else 0, "read": read, "keep": "handler", "resp": {"status": 200, "conn": "-", "body": body}}]
+    cfg = {"mem": True, "quiet": True, "wbuf": 4 * BLK, "maxchunk": 2 * BLK, "head_ms": 0, "ka_ms": 5000}
+    case = h1gen.assemble(reqs, progs, cfg=cfg, sock={"budget": -1 if s["b0"] >= 99 else s["b0"] * BLK}, epilogue=False)
+    head = case["gt"][0]["headlen"]
+    steps, first = [], True
+    for st in tc["steps"]:
+        if "seg" in st:
+            steps.append({"seg": st["seg"] * BLK + (head if first else 0)})
+            first = False
+        elif "w" in st:
+            steps.append({"w": st["w"] * BLK})
+        else:
+            steps.append(st)
+    case["steps"] = steps + [{"tick": 100}]
+    case["origin"] = "H1Mem"
+    case["mem_pred"] = dict(tc.get("pred", {}), head=head)
+    case["model_script"] = {"scn": s, "steps": tc["steps"]}
+    return case
+
+
+def mem_scripts(rep, cfgs, workers, timeout, max_scripts, rnd):
+    """Model-checks H1Mem (what a connection buffers, in 8 KiB blocks, against the C05 clauses of H1Ref) and returns its scripts."""
+    cases = []
+    for cfg in cfgs:
+        res = vlib.run_tlc(AREA, "H1Mem", cfg, rep.workdir, workers=workers, timeout=timeout, xmx="10g")
+        vlib.tlc_ok(res, "H1Mem " + cfg)
+        rep.add_tlc("H1Mem/" + cfg, res, exhaustive=True)
+        if res.distinct < 1000:
+            raise vlib.ToolError("H1Mem explored suspiciously little with " + cfg)
+        scripts = res.cases
+        rep.cov.setdefault("scripts_generated", 0)
+        rep.cov["scripts_generated"] += len(scripts)
+        if len(scripts) > max_scripts:
+            scripts = rnd.sample(scripts, max_scripts)
+        cases += [concretize_mem(tc) for tc in scripts]
+    return cases
+
+
+def mem_fidelity(rep, tpath, all_cases):
+    """Model conformance (not a verdict): the accounting H1Mem predicts at the end of each replayed script (bytes taken from the
+    socket, handed to the handler, pulled from the response body, accepted by the socket) against the real dispatcher's last Mem
+    event, with a tolerance of eight blocks (the model reads whole 8 KiB blocks up to the cap, the code reads whatever the spare capacity
+    of its buffer takes - the 64 KiB "one read" term of the bound)."""
+    want = {n + 1: c["mem_pred"] for n, c in enumerate(all_cases) if "mem_pred" in c}
+    if not want:
+        return
+    last, run = {}, 0
+    with open(tpath) as f:
+        for line in f:
+            e = json.loads(line)
+            if e.get("ev") == "Reset":
+                run = e["run"]
+            elif e.get("ev") == "Mem" and run in want:
+                last[run] = e
+    BLK, bad = 8192, []
+    for n, p in want.items():
+        e = last.get(n)
+        if e is None:
+            bad.append({"run": n, "why": "no Mem event"})
+            continue
+        diffs = {"taken": e["taken"] - (p["taken"] * BLK + (p["head"] if p["taken"] else 0)), "handed": e["handed"] - p["handed"] * BLK,
+                 "pulled": e["pulled"] - p["pulled"] * BLK, "accepted_body": None}
+        off = {k: v for k, v in diffs.items() if v is not None and abs(v) > 8 * BLK}
+        if off:
+            bad.append({"run": n, "script": all_cases[n - 1].get("model_script"), "model": p, "impl": {k: e[k] for k in ("taken", "handed", "pulled", "accepted")}, "off_by": off})
+    rep.cov["model_conformance_mem"] = {"scripts_compared": len(want), "agree": len(want) - len(bad), "disagree_examples": bad[:5]}
+    print("[fidelity] H1Mem predictions vs real dispatcher: %d/%d agree" % (len(want) - len(bad), len(want)))
+
+
 # ---------------------------------------------------------------------------------------------
 # directed families (quantifiers that the unit-level model abstracts: byte offsets, classes, sizes)
 # ---------------------------------------------------------------------------------------------
@@ -301,7 +377,7 @@ def selftest_corrupt(pid):
 
 
 def run_h1(rep, pid, mc_cfgs_quick, mc_cfgs_thorough, families, random_kwargs, n_random=(150, 2000), probe=False,
-           max_scripts=(1200, 20000), time_cfgs=None, max_time_scripts=(1500, 30000)):
+           max_scripts=(1200, 20000), time_cfgs=None, max_time_scripts=(1500, 30000), mem_cfgs=None, max_mem_scripts=(600, 20000)):
     quick = rep.tier == "quick"
     rnd = random.Random(rep.seed * 7919 + int(pid[1:]))
     ar = vlib.Area(rep, AREA, "H1Trace", "Trace_%s.cfg" % pid)
@@ -310,6 +386,9 @@ def run_h1(rep, pid, mc_cfgs_quick, mc_cfgs_thorough, families, random_kwargs, n
     if time_cfgs:
         cases += time_scripts(rep, time_cfgs[0] if quick else time_cfgs[1], 6 if quick else 12, 900 if quick else 3300,
                               max_time_scripts[0] if quick else max_time_scripts[1], rnd)
+    if mem_cfgs:
+        cases += mem_scripts(rep, mem_cfgs[0] if quick else mem_cfgs[1], 8 if quick else 12, 900 if quick else 3300,
+                             max_mem_scripts[0] if quick else max_mem_scripts[1], rnd)
     rep.cov["exhaustive"] = False
     n_model = len(cases)
     for fam in families:
@@ -325,6 +404,7 @@ def run_h1(rep, pid, mc_cfgs_quick, mc_cfgs_thorough, families, random_kwargs, n
         rep.sample({"origin": c.get("origin", "random"), "wire": c["wire"][:6], "steps": c["steps"][:12], "progs": {k: v for k, v in list(c["progs"].items())[:2]}})
     tpath = ar.run_cases(cases + rc, "all", timeout=2400)
     time_fidelity(rep, tpath, cases + rc)
+    mem_fidelity(rep, tpath, cases + rc)
     ar.selftest(tpath, selftest_corrupt(pid), "one observation corrupted (per-property: Call.tok / Resp.ver / inserted Stall / Mem / Done.t)")
     rep.cov["model_scripts_replayed"] = n_model
     rep.assumptions += ["request/response bodies are pattern bytes; heads are generated from a fixed grammar (lib/h1gen.py)",
